@@ -45,6 +45,15 @@ CHECKS["C19"] = dict(
     note="File-system mutation is observed via CPython audit events plus re-hashing the tree; writes bypassing both (e.g. from C extensions) would be missed. force_local() is outside the null-runner claim.",
     ref="6/C19")
 
+CHECKS["C08"] = dict(
+    technique="Coq proof by reflection over a finite store model (closed reachable set under calls / crash prefixes / I/O faults, every state good => all histories) for the configuration extracted from the source + exhaustive fault injection on the real filesystem backend compared with the model's prediction",
+    text="Theorem crash_safe_all_histories: for any sequence, of any length, of calls by two functions producing the same bytes, each completing or cut at any primitive file operation (link files caught empty / at a directory boundary / elsewhere), "
+         "every later call returns the value, raises nothing, and the next one is served from the store; instantiated with the reader / write-order facts extracted from the current source, with refutation theorems for the exists() reader, link-before-object and memento-before-data. "
+         "Implementation: every mutating file-system call of the memoizing call x {death before, ENOSPC before, death / ENOSPC mid-write with 4 truncation shapes} x scenarios, restart, recovery calls F,F,G,G; outcomes compared with the model and with the property directly.",
+    note="Fault granularity: Python-level file-system calls; file content after a fault is old, empty or a prefix. Not modelled: power loss with unsynced page cache, torn renames, concurrent writers. "
+         "Restart is simulated in-process by rebuilding all backend objects. The model covers the plain content-addressed value path; null / exception / override / partition / nested scenarios are checked on the implementation only.",
+    ref="6/C08")
+
 NOT_YET = {}
 
 
